@@ -340,11 +340,28 @@ Section Codec.
 
   Definition wrap64 (z : Z) : Z := ((z + 9223372036854775808) mod 18446744073709551616 - 9223372036854775808)%Z.
 
-  (* isValidTimestamp + AsTime().UnixNano() *)
+  Definition max_int64 : Z := 9223372036854775807%Z.
+  Definition min_int64 : Z := (-9223372036854775808)%Z.
+
+  (* isValidTimestamp (seconds > 0 or nanos > 0), then
+     createdAt / updatedAt: SetCreatedAt / SetModifiedAt = AsTime().UnixNano(), which wraps;
+     expireAt: SetExpirationTime saturates instants outside the int64-nanosecond range. *)
+  Definition ts_valid (s : Z) (n : N) : bool := (0 <? s)%Z || (0 <? n).
+
   Definition server_time (p : option payload) : Z :=
     match p with
     | Some (PTime s n) =>
-        if (0 <? s)%Z || (0 <? n) then wrap64 (s * 1000000000 + Z.of_N n)%Z else 0%Z
+        if ts_valid s n then wrap64 (s * 1000000000 + Z.of_N n)%Z else 0%Z
+    | _ => 0%Z
+    end.
+
+  Definition server_exp (p : option payload) : Z :=
+    match p with
+    | Some (PTime s n) =>
+        if ts_valid s n then
+          let z := (s * 1000000000 + Z.of_N n)%Z in
+          if (max_int64 <? z)%Z then max_int64 else if (z <? min_int64)%Z then min_int64 else z
+        else 0%Z
     | _ => 0%Z
     end.
   Definition server_by (p : option payload) : str :=
@@ -358,13 +375,15 @@ Section Codec.
 
   Definition server_set (kv : kvlog) : treasure :=
     {| t_key := kv_key kv; t_content := pick_content kv;
-       t_exp := server_time (get SnExp kv); t_cby := server_by (get SnCBy kv);
+       t_exp := server_exp (get SnExp kv); t_cby := server_by (get SnCBy kv);
        t_cat := server_time (get SnCAt kv); t_uby := server_by (get SnUBy kv);
        t_uat := server_time (get SnUAt kv) |}.
 
-  (* treasureToKeyValuePair: int64 nanoseconds > 0 -> timestamppb (seconds, nanos) *)
-  Definition pb_time (n : Z) : option (Z * N) :=
-    if (0 <? n)%Z then Some ((n / 1000000000)%Z, Z.to_N (n mod 1000000000)%Z) else None.
+  (* treasureToKeyValuePair: createdAt / updatedAt are reported when the int64 nanoseconds are > 0,
+     expireAt whenever they are <> 0; time.Unix(0, n) -> timestamppb (floor seconds, nanos >= 0) *)
+  Definition pb_split (n : Z) : Z * N := ((n / 1000000000)%Z, Z.to_N (n mod 1000000000)%Z).
+  Definition pb_time (n : Z) : option (Z * N) := if (0 <? n)%Z then Some (pb_split n) else None.
+  Definition pb_exp (n : Z) : option (Z * N) := if (n =? 0)%Z then None else Some (pb_split n).
   Definition pb_by (s : str) : option str := match s with [] => None | _ => Some s end.
 
   (* ---- decoder ----------------------------------------------------------------------------- *)
@@ -433,8 +452,12 @@ Section Codec.
             | Some s => match cur with VStr _ => Ok (VStr s) | _ => Err EPanic end
             end
         | Some r =>
-            let n := match r with RExpireAt => t_exp t | RCreatedAt => t_cat t | _ => t_uat t end in
-            match pb_time n with
+            let p := match r with
+                     | RExpireAt => pb_exp (t_exp t)
+                     | RCreatedAt => pb_time (t_cat t)
+                     | _ => pb_time (t_uat t)
+                     end in
+            match p with
             | None => Ok cur
             | Some (s, ns) => match cur with VTime _ _ => Ok (VTime s ns) | _ => Err EPanic end
             end
